@@ -14,11 +14,13 @@ PROPS = {
     "C03": ("p_analysis", "check_c03"),
     "C04": ("p_grammar", "check_c04"),
     "C06": ("p_analysis", "check_c06"),
+    "C07": ("p_workspace", "check_c07"),
     "C08": ("p_server", "check_c08"),
     "C10": ("p_pos", "check_c10"),
     "C11": ("p_server", "check_c11"),
     "C12": ("p_server", "check_c12"),
     "C15": ("p_preproc", "check_c15"),
+    "C16": ("p_workspace", "check_c16"),
     "C17": ("p_analysis", "check_c17"),
 }
 
